@@ -4,7 +4,8 @@ import Ekit.Model.LinzSpec
 Trace acceptor for C06 (linearizability of ConcurrentLinkedQueue, ConcurrentPriorityQueue,
 ConcurrentList, CopyOnWriteArrayList, syncx.Map).  Producer of the lines: harness/linz/main.go.
 
-    new <kind> k=v …                     => ok
+    new <kind> k=v …                     => ok        (map: `k=int|any v=int|any|err|ptr` = the instantiation of syncx.Map[K, V];
+                                                       keys / values are tokens named by integers, see `mTok`)
     pre|call|post …                      => -
     run reps=R seed=S                    => h <events> | h <events> | …       (or `hang`)
     cowstack r=R n=N k=K seed=S          => writes=… reads=… … | ws init=<state> <events> | …  (list stack burst + witnesses)
@@ -197,23 +198,53 @@ def sRet (_ : List String) (r : String) : Option SRet :=
   | ["err", "idx", l, i] => do pure (.err (.idx (← l.toInt?) (← i.toInt?)))
   | _ => none
 
+/-- Keys and values of `syncx.Map[K, V]`.  The map specification (`mapExec`) is stated over `Int` keys and values and
+    uses nothing but their equality (and an order on keys to keep the association list canonical), so any injective
+    naming of the key / value domain of an instantiation by integers is faithful.  Tokens (harness/linz, codecs):
+    the int `n` ↦ `8n`; `s<n>` (a string in an `any`) ↦ `8n+1`; `e<n>` (an error value) ↦ `8n+2`; `p<n>` (a non-nil
+    pointer) ↦ `8n+3`; `nil` (the zero value of an interface- or pointer-typed K / V) ↦ `4`; `pnil` (a typed nil pointer
+    in an `any`) ↦ `12`.  In particular `nil` is a value like any other: a key holding it is present.
+    Anything else (`other`: a value of a type that was never stored) is no value of the domain. -/
+def mTok (s : String) : Option Int :=
+  if s == "nil" then some 4
+  else if s == "pnil" then some 12
+  else match s.toInt? with
+    | some n => some (8 * n)
+    | none =>
+      let tag (k : Int) : Option Int := ((s.drop 1).toString.toInt?).map fun n => 8 * n + k
+      if s.startsWith "s" then tag 1
+      else if s.startsWith "e" then tag 2
+      else if s.startsWith "p" then tag 3
+      else none
+
 def mOp : List String → Option MOp
-  | ["load", k] => k.toInt?.map .load
-  | ["store", k, v] => do pure (.store (← k.toInt?) (← v.toInt?))
-  | ["los", k, v] => do pure (.los (← k.toInt?) (← v.toInt?))
-  | ["lad", k] => k.toInt?.map .lad
-  | ["del", k] => k.toInt?.map .del
-  | ["losf", k, v] => do pure (.losf (← k.toInt?) (some (← v.toInt?)))
-  | ["losfe", k] => k.toInt?.map (.losf · none)
+  | ["load", k] => (mTok k).map .load
+  | ["store", k, v] => do pure (.store (← mTok k) (← mTok v))
+  | ["los", k, v] => do pure (.los (← mTok k) (← mTok v))
+  | ["lad", k] => (mTok k).map .lad
+  | ["del", k] => (mTok k).map .del
+  | ["losf", k, v] => do pure (.losf (← mTok k) (some (← mTok v)))
+  | ["losfe", k] => (mTok k).map (.losf · none)
   | ["range"] => some .snap
   | _ => none
 
-def pPairs (s : String) : Option MapS :=
+/-- stable insertion by key (duplicates kept: a key reported twice never equals a state of the specification) -/
+def insByKey (p : Int × Int) : List (Int × Int) → List (Int × Int)
+  | [] => [p]
+  | q :: qs => if p.1 < q.1 then p :: q :: qs else q :: insByKey p qs
+
+/-- `k=v,…` as printed by the harness (raw key / value tokens) -/
+def pRawPairs (s : String) : Option (List (String × String)) :=
   if s = "-" then some [] else
   (s.splitOn ",").mapM fun p =>
     match p.splitOn "=" with
-    | [k, v] => do pure ((← k.toInt?), (← v.toInt?))
+    | [k, v] => some (k, v)
     | _ => none
+
+/-- the pairs of a quiescent `Range`, named by integers and brought into the specification's canonical key order -/
+def pPairs (s : String) : Option MapS := do
+  let ps ← (← pRawPairs s).mapM fun (k, v) => do pure ((← mTok k), (← mTok v))
+  pure (ps.foldl (fun acc p => insByKey p acc) [])
 
 /-- `model`: the fn-call count after `/` must be what the `Load ; fn ; LoadOrStore` model predicts -/
 def mRet (model : Bool) (op : List String) (r0 : String) : Option MRet :=
@@ -224,11 +255,11 @@ def mRet (model : Bool) (op : List String) (r0 : String) : Option MRet :=
   let cntOk (must : Bool) : Bool :=
     !model || !isF || (match cnt with | some c => c ≤ 1 && (!must || c == 1) | none => false)
   match r.splitOn ":" with
-  | ["v", x] => x.toInt?.map .val
+  | ["v", x] => (mTok x).map .val
   | ["absent"] => some .absent
   | ["ok"] => some .ok
-  | ["l", x] => if cntOk false then x.toInt?.map .loaded else none
-  | ["s", x] => if cntOk true then x.toInt?.map .stored else none
+  | ["l", x] => if cntOk false then (mTok x).map .loaded else none
+  | ["s", x] => if cntOk true then (mTok x).map .stored else none
   | ["err"] => if cntOk true then some .err else none
   | ["m", ps] => (pPairs ps).map .all
   | _ => none
@@ -245,13 +276,13 @@ def expandRange (raw : Array Raw) : Except String (Array Raw) := do
       | some r =>
         match r.splitOn ":" with
         | ["m", ps] =>
-          match pPairs ps with
+          match pRawPairs ps with
           | none => throw s!"bad range result {r}"
           | some pairs =>
             if (pairs.map (·.1)).eraseDups.length != pairs.length then
               throw s!"thread {c.tid}: Range reported a key twice: {r}"
             for (k, v) in pairs do
-              out := out.push { c with op := ["load", toString k], ret := some s!"v:{v}" }
+              out := out.push { c with op := ["load", k], ret := some s!"v:{v}" }
         | _ => throw s!"thread {c.tid}: range answered `{r}`, which no call of the specification can answer"
     else out := out.push c
   return out
